@@ -444,10 +444,18 @@ def histories(ctx):
         [[1, 0], [0, 3, 15], [0, 255, 15], [0, 255, 33], [0, 1, 33]],
         [[0, 4, 15], [0, 1, 15], [0, 255, 15], [1, 1], [0, 65280, 15], [0, 3, 16]],
         [[1, 1], [1, 1], [0, 255, 41], [0, 1, 41], [0, 1, 65280]],
+        # a class without an own module first, then the class that has one (must not be poisoned)
+        [[0, 3, 28], [0, 1, 28], [0, 3, 28]],
+        [[0, 4, 33], [0, 65280, 33], [0, 1, 33], [0, 4, 33]],
+        [[0, 65280, 1], [0, 1, 1], [0, 3, 1], [0, 4, 1]],
+        [[0, 4, 1], [0, 3, 1], [0, 1, 1]],
+        [[0, 3, 65280], [0, 1, 65280], [0, 3, 64], [0, 1, 64], [0, 1, 65]],
+        [[0, 254, 15], [0, 3, 15], [1, 1], [0, 1, 15], [0, 2, 45], [0, 1, 45]],
+        [[1, 0], [0, 3, 28], [0, 1, 28], [1, 1], [0, 4, 28], [0, 1, 28]],
     ]
     for h in fixed:
         yield h
-    for _ in range(ctx.n(14, 150)):
+    for _ in range(ctx.n(20, 150)):
         h = []
         for _ in range(rng.randint(2, 8)):
             if rng.random() < 0.18:
